@@ -138,6 +138,7 @@ fn c01_parts(div: u64) -> Vec<Part> {
         part(Box::new(Erased(engines::images::ReadImages)), 400_000 / div, 8_000_000 / div, "C01", 20),
         part(Box::new(Erased(engines::images::ReadEnum { skrifa: false })), 2_800 / div, 11_200 / div, "C01", 90),
         part(Box::new(Erased(engines::images::SkewedArgs)), 300_000 / div, 6_000_000 / div, "C01", 20),
+        part(Box::new(Erased(engines::images::ReadWindowEnum)), 1_600 / div, 48_000 / div, "C01", 90),
     ]
 }
 
